@@ -40,6 +40,11 @@ theorem headOK_of_nameCh {c : Char} (h : nameCh c = true) : HeadOK c := by
 theorem headOK_digit {d : Nat} (h : d < 10) : HeadOK (digitChar d) := by
   rcases digit_cases h with rfl|rfl|rfl|rfl|rfl|rfl|rfl|rfl|rfl|rfl <;> (unfold HeadOK; decide)
 
+theorem headOK_numHead {c : Char} (h : NumHead c) : HeadOK c := by
+  rcases h with rfl | ⟨d, hd, rfl⟩
+  · unfold HeadOK; decide
+  · exact headOK_digit hd
+
 theorem headOK_upper {c : Char} (h : 'A' ≤ c ∧ c ≤ 'Z') : HeadOK c := by
   have ne : ∀ x : Char, ¬ ('A' ≤ x ∧ x ≤ 'Z') → c ≠ x := fun x hx e => hx (e ▸ h)
   refine ⟨?_, ne _ (by decide), ne _ (by decide), ne _ (by decide)⟩
@@ -49,8 +54,8 @@ theorem headOK_upper {c : Char} (h : 'A' ≤ c ∧ c ≤ 'Z') : HeadOK c := by
 theorem body_head (e : Expr) (h : WF e) (b : Blanks) : ∃ c cs, body b e = c :: cs ∧ HeadOK c := by
   induction e using Expr.ind generalizing b with
   | num n p =>
-    obtain ⟨d, s, hd, hs⟩ := numText_head n h.1
-    exact ⟨digitChar d, s ++ (if p then ['%'] else []), by simp [body, hs], headOK_digit hd⟩
+    obtain ⟨c, s, hs, hc⟩ := numText_head n h.1
+    exact ⟨c, s ++ (if p then ['%'] else []), by simp [body, hs], headOK_numHead hc⟩
   | str s => exact ⟨'"', escape '"' s ++ ['"'], by simp [body], by unfold HeadOK; decide⟩
   | bool b' =>
     cases b' with
@@ -203,7 +208,7 @@ theorem plain_digits (ds : List Nat) (h : AllDigits ds) : ∀ c ∈ ds.map digit
   exact plain_digitChar (h d hd)
 
 theorem plain_fracText (fp : Option (List Nat))
-    (h : match fp with | none => True | some f => f ≠ [] ∧ AllDigits f) :
+    (h : match fp with | none => True | some f => AllDigits f) :
     ∀ c ∈ fracText fp, plainCh c = true := by
   cases fp with
   | none => intro c hc; cases hc
@@ -212,7 +217,7 @@ theorem plain_fracText (fp : Option (List Nat))
     simp only [fracText, List.mem_cons] at hc
     rcases hc with rfl | hc
     · decide
-    · exact plain_digits f h.2 c hc
+    · exact plain_digits f h c hc
 
 /-- the characters of a numeric literal all go into the token being accumulated (the exponent sign
     through the scientific-notation guard) -/
@@ -227,42 +232,23 @@ theorem lex_numText (n : NumLit) (h : n.WF) (st : St) (rest : List Char) (hacc :
   | some x =>
     obtain ⟨ng, ds⟩ := x
     rw [he] at hexp
-    obtain ⟨_, hds, d, hd1, hd2⟩ := hexp
-    have hd : d < 10 := hip d (by rw [hd1]; simp)
+    obtain ⟨_, hds⟩ := hexp
     simp only [expText, List.cons_append]
     rw [lex_plain_char _ 'E' _ (by decide)]
-    have hsn := matchSN_mant d hd2 hd n.fp hfp
+    have hsn := matchSN_mant n.ip hip n.fp hfp hne
+    have hlen : (n.ip.map digitChar ++ fracText n.fp).length ≥ 1 := by
+      rcases hne with h1 | h1
+      · cases hi : n.ip with
+        | nil => exact absurd hi h1
+        | cons _ _ => simp
+      · cases hf : n.fp with
+        | none => simp [NumLit.fdigits, hf] at h1
+        | some f => simp [fracText]; omega
     rw [lex_sn_sign _ (if ng then '-' else '+') _ (by cases ng <;> simp)
-      (by simp [hacc, hd1]) (by simpa [hacc, hd1] using hsn)]
+      (by simp only [hacc, List.nil_append, List.length_append, List.length_cons, List.length_nil] at hlen ⊢; omega)
+      (by simpa [hacc] using hsn)]
     rw [lex_plain _ (plain_digits ds hds)]
     simp [hacc]
-
-theorem numText_ends_digit (n : NumLit) (h : n.WF) : ∃ q d, d < 10 ∧ n.text = q ++ [digitChar d] := by
-  obtain ⟨hne, hip, hfp, hexp⟩ := h
-  have last : ∀ ds : List Nat, ds ≠ [] → AllDigits ds → ∃ q d, d < 10 ∧ ds.map digitChar = q ++ [digitChar d] := by
-    intro ds hne hd
-    cases hr : ds.reverse with
-    | nil => simp at hr; exact absurd hr hne
-    | cons d ds' =>
-      have : ds = ds'.reverse ++ [d] := by rw [← List.reverse_reverse ds, hr]; simp
-      exact ⟨ds'.reverse.map digitChar, d, hd d (by rw [this]; simp), by rw [this]; simp⟩
-  rw [numText_eq]
-  cases he : n.exp with
-  | some x =>
-    obtain ⟨ng, ds⟩ := x
-    rw [he] at hexp
-    obtain ⟨q, d, hd, e⟩ := last ds hexp.1 hexp.2.1
-    exact ⟨n.ip.map digitChar ++ (fracText n.fp ++ ('E' :: (if ng then '-' else '+') :: q)), d, hd, by
-      simp [expText, e]⟩
-  | none =>
-    cases hf : n.fp with
-    | some f =>
-      rw [hf] at hfp
-      obtain ⟨q, d, hd, e⟩ := last f hfp.1 hfp.2
-      exact ⟨n.ip.map digitChar ++ '.' :: q, d, hd, by simp [expText, fracText, e]⟩
-    | none =>
-      obtain ⟨q, d, hd, e⟩ := last n.ip hne hip
-      exact ⟨q, d, hd, by simp [expText, fracText, e]⟩
 
 /-- the characters of a reference text end up, unquoted, in the token being accumulated -/
 theorem lex_refText (r : Ref) (h : r.WF) (st : St) (rest : List Char) (hacc : st.acc = []) :
@@ -348,16 +334,15 @@ theorem lexInv (H : LexHyps) : ∀ e, LexInv e := by
     cases p with
     | true =>
       have hq := H.pct n hwf.1 (hwf.2 rfl)
-      obtain ⟨d, s, _, hs⟩ := numText_head n hwf.1
+      obtain ⟨d, s, hs, _⟩ := numText_head n hwf.1
       simp only [body, raw, if_true, List.append_assoc, List.cons_append, List.nil_append]
       rw [lex_numText n hwf.1 st _ hacc, lex_pct _ _ _ (by simp [hs]) (by simpa using hq)]
       simp [rawNum, hacc]
     | false =>
-      obtain ⟨q, d, hd', he⟩ := numText_ends_digit n hwf.1
       simp only [body, raw, Bool.false_eq_true, if_false, List.append_nil]
       rw [lex_numText n hwf.1 st _ hacc]
-      rw [fin_lex_delim _ _ hd (by simpa [he] using noSN_ends_digit q d hd')]
-      rw [flush_acc st n.text (by simp [he]) hacc]
+      rw [fin_lex_delim _ _ hd (by simpa using noSN_numText n hwf.1)]
+      rw [flush_acc st n.text (numText_ne_nil n hwf.1) hacc]
       simp [rawNum]
   | str s =>
     intro _ b st rest hacc hd
